@@ -54,22 +54,26 @@ Definition corr (c : case) : bool :=
   (match r with Ok => perm_eqb (pair_eqb Nat.eqb Nat.eqb) (k_map c) mp | _ => true end) &&
   obs_eqb (k_obsA' c) (model_obs (k_uA c) A') && obs_eqb (k_obsB' c) (model_obs (k_uB c) B).
 
+(* the wires of a wrapper call as links of A': one link per wire into the image of B's root, and the state order
+   links that accompany wires from enclosing regions (spec/InsertS.v wires_extra, read off A's observation) *)
 Definition wires_links (c : case) : list (port * port) :=
   match k_wires c with
   | Some (ws, _) =>
-      let r' := mapn (k_map c) (o_root (k_obsB c)) in
-      map (fun iw => (snd iw, (r', Z.of_nat (fst iw)))) (combine (seq 0 (length ws)) ws)
+      let gA := graph_of_obs (k_uA c) (k_obsA c) in
+      let p := match k_parent c with Some p => p | None => a_root gA end in
+      wires_extra gA p (mapn (k_map c) (o_root (k_obsB c))) ws
   | None => []
   end.
 
 (* monitor: all observations are self-consistent (every query reads the same multigraph), B is not modified,
-   and (A, B, A', mapping) satisfy isomorphism + frame.  Outside the guard (dead parent) nothing is asked. *)
+   and (A, B, A', mapping) satisfy isomorphism + frame.  Outside the guard (dead parent, a wire whose source has
+   no sibling among the ancestors of the inserted root) nothing is asked. *)
 Definition mon (c : case) : bool :=
   let gA := graph_of_obs (k_uA c) (k_obsA c) in
   let gB := graph_of_obs (k_uB c) (k_obsB c) in
   let gA' := graph_of_obs (k_uA c) (k_obsA' c) in
   let p := match k_parent c with Some p => p | None => a_root gA end in
-  if a_live gA p then
+  if a_live gA p && match k_wires c with Some (ws, _) => wires_guard gA p ws | None => true end then
     res_eqb (k_res c) Ok &&
     consistent (k_uA c) (k_obsA c) && consistent (k_uB c) (k_obsB c) && consistent (k_uA c) (k_obsA' c) &&
     obs_eqb (k_obsB c) (k_obsB' c) &&
